@@ -20,6 +20,10 @@ from pathlib import Path
 VERIF = Path(__file__).resolve().parent.parent
 
 # how each seed fared against the checks AS THEY WERE when the seed arrived (before any strengthening it prompted)
+def prop_of(sid: str) -> str:
+    return re.search(r"C\d\d", sid).group(0)
+
+
 HISTORY = {
     # first batch (C01-C08)
     "C01_1": "caught as built", "C01_2": "caught as built", "C01_3": "caught as built",
@@ -180,6 +184,33 @@ HISTORY.update({
     "b5_C19_1": "missed as built; rule C19-D11 added (_find_law_directives evaluated)", "b5_C19_2": "caught as built (C09-N4)",
     "b5_C20_1": "caught as built", "b5_C20_2": "caught as built",
 })
+HISTORY.update({
+    "b6_C01_1": "caught as built (H4: the argument of exp in the private Mayer function, reported for the published law built from it)",
+    "b6_C04_1": "caught as built (K7: 3 of 4 components reach the dimension assertion)",
+    "b6_C05_1": "caught as built (S1: Add(a, a) loses a term when the per-argument results are gathered in a dict)",
+    "b6_C06_1": "refused as built (exit 2: Derivative.variables); caught by S3 after the tree family got a derivative of symbolic order and the derivative node its `.variables` "
+                "(which raises for a symbolic count, as SymPy's does); derivative variable lists are compared in SymPy's canonical (variable, count) form",
+    "b6_C07_1": "refused as built (exit 2: isinstance inside evaluate_quantity); caught by U6 after the evaluation followed evaluate_quantity: the scale factor of the re-wrapped "
+                "quantity is SymPy's gram-based one, not the SI value",
+    "b6_C08_1": "caught as built, by C04-K4 (assert_equivalent_dimension evaluated on its case table: `is_nonzero is not True` lets symbolic and complex factors through); C08 itself treats "
+                "the dimension gate as a black box and is silent",
+    "b6_C09_1": "caught as built (N1: the rebuild path hands IndexedBase.__new__ a name where the existing symbol was given)",
+    "b6_C10_1": "refused as built (exit 2: len() of a Vector); caught by V1 after the reader asks the Vector class what len() and `if vector:` mean (__len__ / __bool__ evaluated from "
+                "the class): an empty accumulator is falsy and skips the system check",
+    "b6_C11_1": "caught as built (T2: scaling a cylindrical vector by -2)",
+    "b6_C12_1": "refused as built (exit 2: a new CoordinateSystem property); caught by O3 after properties the operators read from a coordinate system are evaluated from their source: "
+                "the generic curl formula is accepted for 3 components and reported for the 2-component spherical field",
+    "b6_C13_1": "caught as built, by C12-O3/O4 (the curl of a 1- and 2-component Cartesian field against the zero-padded reference); C13's own Stokes rules take the curl operator as given",
+    "b6_C14_1": "caught as built (R2: compound operand in the middle of the sorted triple)",
+    "b6_C15_1": "refused as built (exit 2: .is_extended_real of a coordinate); caught by X4 after the reader answers SymPy's three-valued query for the generic coordinates (symbols "
+                "without assumptions: None)",
+    "b6_C16_1": "missed as built; Q3 now has the unknown occurring in another written form (vector_equals holds, structural equality does not): the moved term must be the one "
+                "vector_equals found",
+    "b6_C18_1": "missed as built; L16 evaluates _print_Mul on products with a factor -1 (unevaluated Mul of one argument is that argument): the sum must keep its brackets",
+    "b6_C19_1": "missed as built; D12 models the role resolver's first-module-that-holds-the-object loop against the names each symbols sub-module assigns",
+    "b6_C20_1": "missed as built; R6: no submodule of the constants package has the name of a constant",
+})
+
 DROPPED = {
     "b4_C11_1": "obsolete: the change (ScalarField.rebase returns a field that stores its value) broke C11 only through a genuine defect of the pinned tree it exposed - fields that "
                 "store a value answered points of another kind instead of refusing them. That defect was repaired in 8988336 (C11-T4 now covers stored-value fields); on the "
@@ -239,7 +270,7 @@ def main() -> int:
         verdict = "caught" if any(v["exit"] == 1 for v in caught.values()) else ("refused" if any(v["exit"] == 2 for v in caught.values()) else "missed")
         meta = {
             "seed": sid,
-            "property": sid.replace("b3_", "").split("_")[0],
+            "property": prop_of(sid),
             "origin": "independent sub-agent given only the property text and its own scratch worktree of /repo",
             "needs_to_manifest": needs_text((sd / "notes.md").read_text()),
             "rebased": (sd / "patch.original.diff").exists(),
@@ -264,7 +295,7 @@ def main() -> int:
     table = ["| seed | property | what it needs to manifest (short) | reported by | history |", "|---|---|---|---|---|"]
     for a, b, c in rows:
         if b in ("dropped", "unconfirmed"):
-            table.append(f"| {a} | {a.replace('b3_', '').split('_')[0]} | - | {b} | {c[:300]} |")
+            table.append(f"| {a} | {prop_of(a)} | - | {b} | {c[:300]} |")
             continue
         meta = json.loads((out / a / "meta.json").read_text())
         rep = "; ".join(f"{k} {'/'.join(v['rules'])}" if v["exit"] == 1 else f"{k} refuses (exit 2)" for k, v in sorted(meta["checks_reporting"].items()))
